@@ -65,18 +65,36 @@ func findSeqLaunch(r *Run, rule string) *seqLaunch {
 	return s
 }
 
+// callsFunc: the syntax under root calls the function with this key — directly, or through helpers
+// that have a single call site (the pieces a function or closure body was moved into).
 func callsFunc(info *types.Info, root ast.Node, key string) bool {
+	return callsFuncDepth(info, root, key, 0)
+}
+
+func callsFuncDepth(info *types.Info, root ast.Node, key string, depth int) bool {
 	found := false
 	ast.Inspect(root, func(n ast.Node) bool {
 		if c, ok := n.(*ast.CallExpr); ok {
-			if f, ok := calleeFunc(info, c); ok && FuncKey(f) == key {
-				found = true
+			if f, ok := calleeFunc(info, c); ok {
+				k := FuncKey(f)
+				if k == key {
+					found = true
+				} else if theProg != nil && depth < 3 {
+					if callee := theProg.DeclOf(f); callee != nil && callee.Decl.Body != nil && len(theProg.CallGraph().Callers(k)) == 1 {
+						if callsFuncDepth(callee.Pkg.TypesInfo, callee.Decl.Body, key, depth+1) {
+							found = true
+						}
+					}
+				}
 			}
 		}
 		return !found
 	})
 	return found
 }
+
+// theProg is the program under analysis (set by Load) for helpers that only get a types.Info.
+var theProg *Prog
 
 func isLaunch(s *seqLaunch, e Event) bool {
 	return IsCall(e, keyGroupGo) && LitArg(e.Call) == s.lit
